@@ -487,7 +487,11 @@ OnData(d) ==
   /\ d \in net /\ d.t = "cell" /\ d.dst \in Node /\ Accepted(d.dst, d) /\ d.m.t = "data"
   /\ LET n == d.dst  m == d.m  cid == d.cid IN
      \* ("circuit and origin and ..." in the code: the origin tuple is always truthy)
-     IF Has(circ[n], cid) /\ d.src = FirstHopAddr(circ[n][cid]) THEN
+     IF Has(circ[n], cid) /\ d.src = FirstHopAddr(circ[n][cid]) /\ "nested" \in DOMAIN m /\ "altered" \notin DOMAIN m THEN
+        \* a packet of the tunnel community itself, handled as a message: the data message inside names a circuit whose
+        \* first hop it did not come from - nothing is delivered (OutsideNested)
+        /\ hist' = hist /\ exit' = exit
+     ELSE IF Has(circ[n], cid) /\ d.src = FirstHopAddr(circ[n][cid]) THEN
         /\ hist' = [hist EXCEPT !.origLog = @ \cup {[n |-> n, cid |-> cid, p |-> Seen(m), origin |-> m.origin]}]
         /\ exit' = exit
      ELSE IF m.dest # Null /\ Has(exit[n], cid) /\ (exit[n][cid].enabled \/ d.src = exit[n][cid].prev) THEN
@@ -756,6 +760,18 @@ RPForge(rp, cid) ==
                    [t |-> "data", cid |-> other, dest |-> "peer", origin |-> Null, p |-> 0]))
   /\ AdvFrame
 
+\* somebody outside sends the exit's outside socket a datagram that IS a tunnel-community data message naming circuit
+\* `target` (any id, any claimed origin). The exit tunnels it back like any outside data; at the circuit's owner it looks like
+\* a packet of the tunnel community and is dispatched as a message - the nested data message did not come from the first
+\* hop of the circuit it names, so it must change nothing and be delivered to nobody
+OutsideNested(x, cid, target) ==
+  /\ AdvStep /\ Has(exit[x], cid) /\ exit[x][cid].open /\ target \in 1..ctr.cid
+  /\ LET ex == exit[x][cid]
+         m  == [t |-> "data", cid |-> cid, dest |-> Null, origin |-> "outside", p |-> 0, nested |-> target]
+     IN Emit({}, StampIds(<<Cell(x, ex.prev, cid, FALSE, FALSE, <<Layer(ex.key, B)>>, m)>>))
+  /\ ctr' = [ctr EXCEPT !.msg = BumpN(x, @, 1)]
+  /\ AdvFrame
+
 \* any byte of an encrypted cell altered in flight (the outermost AEAD layer no longer verifies)
 Tamper(d) == /\ AdvStep /\ d \in net /\ d.t = "cell" /\ d.L # <<>>
              /\ net' = (net \ {d}) \cup {[d EXCEPT !.L = <<[Head(d.L) EXCEPT !.ok = FALSE]>> \o Tail(d.L),
@@ -873,6 +889,7 @@ Adversary ==
   \/ "plain" \in AdvKinds /\ \E src \in AdvSrcs, dst \in Node, cid \in 1..ctr.cid, mt \in {"data", "ping"} : AdvPlain(src, dst, cid, mt)
   \/ "destroy" \in AdvKinds /\ \E src \in AdvSrcs, dst \in Node, cid \in 1..ctr.cid, s \in Everyone : ForgeDestroy(src, dst, cid, s)
   \/ "rpforge" \in AdvKinds /\ \E rp \in Node, cid \in 1..ctr.cid : RPForge(rp, cid)
+  \/ "nested" \in AdvKinds /\ \E x \in Node, cid \in 1..ctr.cid, tg \in 1..ctr.cid : OutsideNested(x, cid, tg)
   \/ "mangle" \in AdvKinds /\ \E d \in net, how \in {"ident", "cid", "eph", "ephauth", "auth", "cands"}, c \in 0..ctr.cid :
         (how # "cid" => c = 0) /\ MangleAnswer(d, how, c)
 
